@@ -6,7 +6,7 @@ for d in sorted(glob.glob('/verif/seeded/*/')):
     m=json.load(open(d+'meta.json'))
     rows.append((m['id'],(m.get('summary') or '').replace('\n',' ')[:170],(m.get('needs') or '').replace('\n',' ')[:150],', '.join(m.get('caught_by') or [('superseded by a fix (see meta.json)' if m.get('superseded') else 'not claimed (see meta.json)' if 'not claimed' in (m.get('note') or '') else '— (missed)')])))
 out=['## 7. Seeded changes and which checks catch them','',
-'Fresh sub-agents were given only the text of one property and a scratch worktree of `/repo` (nothing from `/verif`) and asked for changes that break the property while compiling and passing the 72 existing tests, each with a demonstration test; a second round was told what the first round had produced and asked for corners a randomized reference-model test would tend to miss. Every change below was confirmed in a scratch worktree (`tools_confirm_mutants.sh`: the suite passes with the change, the demonstration passes without it and fails with it) and is kept under `seeded/<id>/` (`patch.diff`, `demo_test.go`, `meta.json`). `tools_matrix.sh` applies each one to `/repo`, runs the check(s) of its property and undoes it (`git -C /repo checkout -- .`). Twelve rounds of 40 and a short thirteenth of 10 (the themes of the rounds are in the notes below the table, the instructions the sub-agents were given in `docs/seeded_prompts/`, `@ID@` standing for the property); the last column is the outcome of the final matrix over the first 480 (seed 1, the registered quick commands; earlier matrices at seeds 2 and 3 agree), run after the strengthening of round 12; the ten of round 13 were run after the strengthening they led to. "not claimed" = the property does not settle what the change alters (reason in `meta.json`); "superseded" = the change led to a repair of `/repo` and is contained in, or neutralised by, that repair. Changes whose lines were moved by a later repair were ported by hand and re-confirmed (noted in `meta.json`); three keep the verdict of the tree they were written for (C17-m4, C17-m6, C18-m8).','',
+'Fresh sub-agents were given only the text of one property and a scratch worktree of `/repo` (nothing from `/verif`) and asked for changes that break the property while compiling and passing the 72 existing tests, each with a demonstration test; a second round was told what the first round had produced and asked for corners a randomized reference-model test would tend to miss. Every change below was confirmed in a scratch worktree (`tools_confirm_mutants.sh`: the suite passes with the change, the demonstration passes without it and fails with it) and is kept under `seeded/<id>/` (`patch.diff`, `demo_test.go`, `meta.json`). `tools_matrix.sh` applies each one to `/repo`, runs the check(s) of its property and undoes it (`git -C /repo checkout -- .`). Twelve rounds of 40 and a short thirteenth of 20 (the themes of the rounds are in the notes below the table, the instructions the sub-agents were given in `docs/seeded_prompts/`, `@ID@` standing for the property); the last column is the outcome of the final matrix over the first 480 (seed 1, the registered quick commands; earlier matrices at seeds 2 and 3 agree), run after the strengthening of round 12; the twenty of round 13 were run after the strengthening they led to. "not claimed" = the property does not settle what the change alters (reason in `meta.json`); "superseded" = the change led to a repair of `/repo` and is contained in, or neutralised by, that repair. Changes whose lines were moved by a later repair were ported by hand and re-confirmed (noted in `meta.json`); three keep the verdict of the tree they were written for (C17-m4, C17-m6, C18-m8).','',
 '| id | change | needs | caught by |','|---|---|---|---|']
 for r in rows:
     out.append('| %s | %s | %s | %s |'%(r[0],r[1].replace('|','\\|'),r[2].replace('|','\\|'),r[3]))
